@@ -22,7 +22,8 @@ RULE = ('shapes: plain call chain, recursion, mutual recursion, exceptions caugh
         'function was left by an exception, or two threads overlapped'
         ' ; deferred actions opened by different events of one frame (method span + line span on every line, two lines, caller + callee, method capture + line span) and a failing completion (delivery closed); a function is entered once per invocation')
 RULE_ADDED = 'rounds 3-5: captured return value compared by text and children; deep_call (tracepoints entered with 3..40 frames left below the recursion limit); shutdown-pending with the agent genuinely started; work abandoned by a thread that switched tracing off, and a later thread with its ident; falsy span objects'
-RULE = RULE + ' ; ' + RULE_ADDED
+RULE_ADDED8 = "round 8: what a capture reports is compared with what the interpreter says the 'return' event stands for (a return, a suspension at a yield / await, an unwinding frame): no result at a suspension or an unwinding; line captures have a result oracle too (none at a line event, the exception at an exception event, the returned value at a real return)"
+RULE = RULE + ' ; ' + RULE_ADDED + ' ; ' + RULE_ADDED8
 ASSUMPTIONS = ['completing a span early but inside the opening invocation is allowed; only captures are required to carry the exit value',
                'capture stages are reached through the LocationAction config (as the unit tests do) since build_trigger does not forward the stage',
                'thread idents are virtual (harness-assigned); reuse of an ident by a later thread is an explored environment choice']
@@ -199,8 +200,12 @@ def analyse_invocations(events):
         d['last'] = last.idx
         if last.kind == 'return':
             # unwinding: an 'exception' event directly before the final 'return' (which then carries None)
+            raised = [e for e in evs if e.kind == 'exception']
             if len(evs) >= 2 and evs[-2].kind == 'exception' and last.arg is None:
                 d['exit'] = ('exception', evs[-2].arg[1] if isinstance(evs[-2].arg, tuple) else evs[-2].arg)
+            elif last.op == 'unwind' and raised:
+                # ... or further back, when a finally block ran in between (the interpreter tells: it did not stop at a return)
+                d['exit'] = ('exception', raised[-1].arg[1] if isinstance(raised[-1].arg, tuple) else raised[-1].arg)
             else:
                 d['exit'] = ('return', last.arg)
         else:
@@ -627,11 +632,20 @@ def check_run(ctx, desc, label, case, events, agent, tr, store, thread_name=None
                 is_generator = sum(1 for e2 in d['events'] if e2.kind == 'call') > 1 or bool(lo_is_generator(desc['prog'], o.func))
                 if is_generator and ev.kind == 'return':
                     exit_kind, exit_val = 'return', ev.arg    # a yield hands a value back: the resumption's exit
-                elif ev.idx != d['last'] and not (ev.kind == 'exception' and exit_kind == 'exception' and ev.idx == d['last'] - 1):
+                elif ev.idx != d['last'] and not (ev.kind == 'exception' and exit_kind == 'exception' and (
+                        ev.idx == d['last'] - 1 or (isinstance(ev.arg, tuple) and ev.arg[1] is exit_val))):
                     feat = 'caught-exception' if ev.kind == 'exception' else ev.kind
                     ctx.violation(f'C15/capture-takes-{feat}-before-exit/{exit_kind}', f'{label}: capture of invocation {o.inv} completed at {ev}, but the invocation '
                                                                                         f'exits at event {d["last"]} by {exit_kind} {exit_val!r}', case)
                     return
+                if ev.kind == 'return' and ev.op != 'return':
+                    # the generator is only suspended (or the frame unwinds): nothing was returned, nothing may be reported as returned
+                    if caps:
+                        ctx.violation(f'C15/capture-reports-{ev.op}-as-result', f'{label}: invocation {o.inv} is at a {ev.op} ({ev}); capture recorded '
+                                                                                 f'{[(w.expression) for w in caps]}', case)
+                        return
+                    nontrivial = True
+                    continue
                 if len(caps) != 1:
                     ctx.violation('C15/capture-result-missing', f'{label}: {len(caps)} CAPTURE results', case)
                     return
@@ -650,6 +664,20 @@ def check_run(ctx, desc, label, case, events, agent, tr, store, thread_name=None
                     ctx.violation(f'C15/capture-wrong-value/{exit_kind}', f'{label}: invocation exits by {exit_kind} {exit_val!r}; capture recorded '
                                                                           f'{w.expression} {(var.type, var.value, len(var.children)) if var else None}', case)
                     return
+            if ckind == 'capture_line':
+                caps = [w for w in snap.watches if w.source == 'CAPTURE']
+                want = {'line': None, 'exception': 'exception', 'return': 'return' if ev.op == 'return' else None}[ev.kind]
+                got = [w.expression for w in caps]
+                if got != ([want] if want else []):
+                    feat = ev.kind if ev.kind != 'return' else ev.op
+                    ctx.violation(f'C15/line-capture-wrong-result/at-{feat}', f'{label}: line capture completed at {ev} ({feat}); capture recorded {got}, '
+                                                                              f'expected {[want] if want else []}', case)
+                    return
+                if want == 'return':
+                    var = snap.var_lookup.get(caps[0].result.vid) if caps[0].result is not None else None
+                    if var is None or var.type != type(ev.arg).__name__ or (type(ev.arg) in (int, str, bool, float, type(None)) and var.value != str(ev.arg)):
+                        ctx.violation('C15/line-capture-wrong-value', f'{label}: returns {ev.arg!r}; capture recorded {(var.type, var.value) if var else None}', case)
+                        return
             nontrivial = nontrivial or d['exit'][0] == 'exception' or any(
                 e2.func == o.func and e2.inv != o.inv and inv[e2.inv]['first'] < ev.idx <= inv[e2.inv]['last'] for e2 in events)
     # nothing left pending for this thread
